@@ -196,4 +196,12 @@ MUTANTS = [
          new="        let unit = load_interface_from_paths(&dep, &opts.interface_paths)?;\n        let unit2 = load_interface_from_paths(&dep, &opts.interface_paths)?;\n        deps_envs.insert(dep.clone(), unit2.exports.to_genv());"),
     dict(name="deprec-hash-not-recorded", prop="C15", units=["u_deprec"], file="crates/compiler/src/pipeline/separate.rs", expect=1,
          old="        dep_hashes.insert(dep.clone(), unit.interface_hash.clone());\n        dep_units.push(unit);", new="        dep_units.push(unit);"),
+    dict(name="seed-C09-dyncall-2", prop="C09", units=["u_ceffect"], patch="seeded/C09-dyncall-effect-dropped-2/patch.diff", expect=1),
+    # ---- U-DISCOVER
+    dict(name="discover-unsorted-extend", prop="C13", units=["u_discover"], file="crates/compiler/src/pipeline/packages.rs", expect=1,
+         old="        imports.sort();\n        imports.reverse();\n        queue.extend(imports);", new="        queue.extend(imports);"),
+    dict(name="discover-unsorted-seed", prop="C13", units=["u_discover"], file="crates/compiler/src/pipeline/packages.rs", expect=1,
+         old="    queue.sort();\n    queue.reverse();\n", new=""),
+    dict(name="discover-sort-without-reverse-harmless", prop="C13", units=["u_discover"], file="crates/compiler/src/pipeline/packages.rs", expect=0,
+         old="    queue.sort();\n    queue.reverse();\n", new="    queue.sort();\n"),
 ]
